@@ -78,6 +78,46 @@ def powStep (ws : List String) : String :=
     | _, _, _, _, _ => "bad-op"
   | _ => "bad-op"
 
+/-- `<bits|x> <ts> <par>` triples of a ledger with branches; `par` = -1 or an index below the block's own -/
+def parseTree : Nat → Nat → List String → Option (List XV.Pow.TBlk × List String)
+  | 0, _, rest => some ([], rest)
+  | n + 1, i, b :: t :: p :: rest =>
+    match parseBits b, t.toInt?, p.toInt?, parseTree n (i + 1) rest with
+    | some bits, some ts, some par, some (bs, r) =>
+      if par < -1 ∨ par ≥ (i : Int) then none
+      else some (⟨bits, ts, if par < 0 then none else some par.toNat⟩ :: bs, r)
+    | _, _, _, _ => none
+  | _, _, _ => none
+
+/-- `powf`: as `pow`, the ledger being a block tree and `main` naming the tip of its main chain (which the
+plugin - and so the model - never looks at) -/
+def powfStep (ws : List String) : String :=
+  match ws with
+  | d :: g :: e :: m :: n :: rest =>
+    match d.toNat?, g.toInt?, e.toInt?, m.toNat?, n.toNat? with
+    | some d, some g, some e, some m, some n =>
+      if n < 1 then "bad-op" else
+      match parseTree n 0 rest with
+      | some (tree, [mainTip, h, par, cb, cts, hash, idok, key, sig]) =>
+        match mainTip.toNat?, h.toInt?, par.toInt?, parseBits cb, cts.toInt?, hash.toNat? with
+        | some mainTip, some h, some par, some cb, some cts, some hash =>
+          if hash ≥ 2 ^ 256 ∨ mainTip ≥ n then "bad-op" else
+          let cfg : XV.Pow.Cfg := ⟨d, g, e, m⟩
+          let legacyBad := !cfg.bitcoin && (match cb with | some b => decide (b > 256) | none => false)
+          if legacyBad then "bad-op" else
+          let idOk := flag idok "1" "0"
+          let keyOk : Option Bool := if key == "p" then some true else if key == "x" || key == "b" then some false else none
+          let sigOk : Option Bool := if sig == "v" then some true else if sig == "w" || sig == "f" then some false else none
+          match idOk, keyOk, sigOk with
+          | some idOk, some keyOk, some sigOk =>
+            let parent : Option Nat := if par ≥ 0 ∧ par < n then some par.toNat else none
+            powVerdictStr (XV.Pow.checkMinerMatchT cfg tree.toArray ⟨h, parent, cb, cts, hash, idOk, keyOk, sigOk⟩)
+          | _, _, _ => "bad-op"
+        | _, _, _, _, _, _ => "bad-op"
+      | _ => "bad-op"
+    | _, _, _, _, _ => "bad-op"
+  | _ => "bad-op"
+
 def step (_ : Unit) (line : String) : Unit × String :=
   let ws := words line
   ((), match ws with
@@ -131,6 +171,7 @@ def step (_ : Unit) (line : String) : Unit × String :=
     | some a, some b, some c, some d => verdictStr (singleAccept a b c d)
     | _, _, _, _ => "bad-op"
   | "pow" :: rest => powStep rest
+  | "powf" :: rest => powfStep rest
   | _ => "bad-op")
 
 def run : IO Unit := loop step ()
